@@ -25,6 +25,14 @@ TITLES = {
     "C18-r5": "AH=0Ah stores the line with one `copy_from_slice` into `mem[data..data+n]`: a buffer crossing FFFFFh aborts instead of wrapping",
     "C19-r4": "the recursion diagnostic lists the open expansions by iterating the HashSet: the text differs from run to run",
     "C20-r4": "user_interface returns a bool instead of exiting; the INT 3 call site ignores it: q / end of input at a breakpoint prompt does not stop the emulator",
+    "C04-r6": "assembler emits `[b,i]` without the padding 0, new interpreter production for it takes DS as segment: `[bp,si]` no longer defaults to SS",
+    "C08-r6": "`call` goes through a helper that does not push a return index equal to the one on top of the stack: direct self-recursion through one call line loses activations",
+    "C10-r5": "assembler stops padding a missing displacement; the interpreter accepts `[b,i]` but its segment-override sibling still requires a displacement: `es[bx,si]` is emitted and then refused",
+    "C12-r6": "`db [n]` / `db [v,n]` accept a total of exactly 65536 bytes and advance the counter with wrapping_add: later labels resolve to 0, 1, ..",
+    "C13-r5": "segment-overridden based-indexed operands are emitted as `es: [..]` (blank after the colon): `general_string` no longer undoes the colon, such a macro argument is refused",
+    "C14-r5": "`db [0]` / `dw [0]` return early before the label is re-typed as data: the label stays a code label, jumps to it and `start: dw [0]` are accepted",
+    "C15-r5": "the 64 KB check of `dw [n]` moved into a helper called with `2*n` computed in u16: counts of 32768 and more abort the assembler",
+    "C20-r5": "the driver remembers the index it last prompted for and skips the prompt when the same index executes again: `w: loop w` runs all its iterations on one `next`",
     "C04-r1": "make_valid_address wraps with one subtraction guarded by `> MB` instead of `% MB`: exactly 1 MB (FFFFh:0010h) stays 1048576",
     "C07-r1": "word MOVS takes its high byte at physical address+1 instead of offset+1: differs when SI/DI = FFFFh",
     "C13-r1": "all parameters replaced in one pass with one regex `\\ba|b\\b` — the alternation is not grouped",
